@@ -26,6 +26,40 @@ def _fn(unit):
     return _unit(unit)[1]
 
 
+_REPLAYS = {}
+
+
+def concrete_replay(tname, trials=60):
+    """replay search for a failed record-contract obligation: random well-formed files, real reader vs the contract evaluated
+    concretely (native/unitreplay.py); cached per unit and process"""
+    if tname not in _REPLAYS:
+        from native import unitreplay
+
+        try:
+            ok, n, info = unitreplay.check_unit(tname, trials=trials, seed=12345)
+        except Exception as e:  # noqa: BLE001  (the replay harness must never mask the verifier's verdict)
+            ok, n, info = True, 0, {"replay_error": f"{type(e).__name__}: {e}"[:200]}
+        if ok:
+            _REPLAYS[tname] = {"confirmed": False, "input": f"{n} random well-formed files tried, the real reader agrees with the contract on all"}
+        else:
+            _REPLAYS[tname] = {"confirmed": True, "input": info.get("input"), "observed": info.get("observed"),
+                               "expected": info.get("expected"), "witness_class": "concrete file"}
+    return _REPLAYS[tname]
+
+
+def bounded_tables(ses, units, trials):
+    """assumption validation (bounded): the record contracts evaluated concretely vs the real readers under CPython"""
+    from native import unitreplay
+
+    for u in units:
+        ok, n, info = unitreplay.check_unit(u, trials=trials, seed=ses.seed)
+        ses.bounded_check(f"{ses.prop}/bounded/contract-vs-real-reader/{u}", ok,
+                          bound=f"{n} random well-formed files (random counts, lengths, field contents incl. blanks)",
+                          function=_fn(u), evaluations=n,
+                          replay=(lambda m, info=info: {"confirmed": True, "input": info.get("input"), "observed": info.get("observed"),
+                                                        "expected": info.get("expected")}) if info else None)
+
+
 def an_table(sub, payload, unit, tag, res):
     from pyvc.dump import definitional_equalities
 
@@ -33,7 +67,8 @@ def an_table(sub, payload, unit, tag, res):
     key = (unit, tname)
     tc = _CHECKERS.get(key)
     if tc is None:
-        tc = _CHECKERS[key] = tables.TableChecker(sub, tname, f"{payload['prop']}/{unit}", function=_fn(unit))
+        tc = _CHECKERS[key] = tables.TableChecker(sub, tname, f"{payload['prop']}/{unit}", function=_fn(unit),
+                                                  replay=lambda model, tname=tname: concrete_replay(tname))
     tc.ses = sub
     tc.prefix = f"{payload['prop']}/{unit}"
     only = payload.get("only_locs")
